@@ -145,8 +145,8 @@ def element_ns_enum_ok(si: int) -> bool:
                 r.append(e)
                 f = soup.new_tag('f', namespace=u_doc or None, nsprefix='q' if u_doc else None)
                 r.append(f)
-                for u_map in [None] + URIS[1:]:
-                    for u_def in [None] + URIS[1:]:
+                for u_map in [None] + URIS:
+                    for u_def in [None] + URIS:
                         m = {}
                         if u_map is not None:
                             m['x'] = u_map
@@ -156,7 +156,7 @@ def element_ns_enum_ok(si: int) -> bool:
                         exp = []
                         for t, ns, is_e in ((r, u_root, False), (e, u_doc, True), (f, u_doc, False)):
                             if sel == 'x|r > *|e':
-                                hit = t is e and 'x' in m and u_root == m['x'] and u_root != ''
+                                hit = t is e and 'x' in m and u_root == m['x']
                             else:
                                 hit = _ref_el(sel, ns, is_e, m)
                             if hit:
